@@ -41,13 +41,16 @@ type Sys struct {
 	MaxRx    time.Time            // largest receive time used so far
 	InOrder  map[string]bool      // client's requests arrived with strictly increasing rx so far
 	lastRx   map[string]time.Time // latest arrival per client
-	Cap      int
-	Steps    int
+	// owner: which exchange created the pair currently on record under (client,
+	// receive timestamp); a receive timestamp may be reused once its pair is gone
+	owner map[string]*Exchange
+	Cap   int
+	Steps int
 }
 
 // NewSys resets the store and installs a scripted clock.
 func NewSys() *Sys {
-	s := &Sys{InOrder: map[string]bool{}, lastRx: map[string]time.Time{}, Cap: server.VerifTSSCap, MaxRx: T0}
+	s := &Sys{InOrder: map[string]bool{}, lastRx: map[string]time.Time{}, owner: map[string]*Exchange{}, Cap: server.VerifTSSCap, MaxRx: T0}
 	s.Clock = &world.Clock{}
 	s.Clock.Fixed = func() time.Time { return s.now }
 	world.UseClock(s.Clock)
@@ -131,6 +134,12 @@ func (s *Sys) H(q Req) (*Exchange, ntp.Packet, *Fail) {
 	for _, o := range s.Inflight {
 		if o.Client == ex.Client && ntp.Time64FromTime(o.Rx) == ntp.Time64FromTime(ex.Rx) {
 			o.Ambiguous, ex.Ambiguous = true, true
+		}
+	}
+	s.syncOwners(post)
+	for _, p := range pairsOf(post, q.Client) {
+		if p.Rx == ntp.Time64FromTime(rx) {
+			s.owner[ownerKey(q.Client, p.Rx)] = ex
 		}
 	}
 	// --- reply header
@@ -262,10 +271,15 @@ func (s *Sys) U(ex *Exchange, reported time.Time) *Fail {
 		}
 	}
 	none := reported.Equal(ex.Txt0)
+	own := s.owner[ownerKey(ex.Client, rx64)] == ex
+	defer s.syncOwners(post)
 	switch {
-	case ex.Ambiguous:
-		if d := len(prePairs) - len(postPairs); d != 0 && d != 1 {
-			return failf("update-touched-unrelated", "update changed %d -> %d pairs", len(prePairs), len(postPairs))
+	case stored != nil && !own:
+		// the pair on record under this receive timestamp belongs to a later exchange
+		// of the client (this exchange's own pair was replaced meanwhile): an update
+		// for this exchange must leave it alone
+		if !equalPairs(prePairs, postPairs) {
+			return failf("update-applied-to-other-exchange", "update for exchange #%d of %s (rx=%v, reported %v) changed the record of a later exchange with the same receive timestamp: %v -> %v", ex.Seq, ex.Client, rx64, ntp.Time64FromTime(reported), *stored, postPairs)
 		}
 	case stored == nil:
 		if !equalPairs(prePairs, postPairs) {
@@ -320,6 +334,25 @@ func (s *Sys) U(ex *Exchange, reported time.Time) *Fail {
 		}
 	}
 	return s.Invariants(post)
+}
+
+func ownerKey(c string, rx ntp.Time64) string {
+	return fmt.Sprintf("%s/%d.%d", c, rx.Seconds, rx.Fraction)
+}
+
+// syncOwners forgets the owners of pairs that are no longer on record.
+func (s *Sys) syncOwners(sn server.VerifTSSSnapshot) {
+	live := map[string]bool{}
+	for _, it := range sn.Items {
+		for _, p := range it.Pairs {
+			live[ownerKey(it.Key, p.Rx)] = true
+		}
+	}
+	for k := range s.owner {
+		if !live[k] {
+			delete(s.owner, k)
+		}
+	}
 }
 
 // OldestActivity returns the queue value of the store's least recently active client.
